@@ -49,24 +49,29 @@ ENV.update({"CARGO_NET_OFFLINE": "true", "CARGO_TARGET_DIR": TARGET})
 # (coq/*.vo, coq/Generated, extract/_build, the harness target directories) is serialised
 # ------------------------------------------------------------------------------------------------
 _lock_state = {"depth": 0, "fd": None}
+_lock_thread = __import__("threading").RLock()
 
 
 @contextlib.contextmanager
 def build_lock():
+    """inter-process: flock on .cache/build.lock; intra-process: a re-entrant thread lock (the depth counter is only
+    touched by the thread that holds it - two threads entering at once used to race on it and the unlock then met a
+    closed file: a machinery error reported as a violation, seed 0 of C18)"""
     st = _lock_state
-    if st["depth"] == 0:
-        os.makedirs(CACHE, exist_ok=True)
-        st["fd"] = open(os.path.join(CACHE, "build.lock"), "w")
-        fcntl.flock(st["fd"], fcntl.LOCK_EX)
-    st["depth"] += 1
-    try:
-        yield
-    finally:
-        st["depth"] -= 1
+    with _lock_thread:
         if st["depth"] == 0:
-            fcntl.flock(st["fd"], fcntl.LOCK_UN)
-            st["fd"].close()
-            st["fd"] = None
+            os.makedirs(CACHE, exist_ok=True)
+            st["fd"] = open(os.path.join(CACHE, "build.lock"), "w")
+            fcntl.flock(st["fd"], fcntl.LOCK_EX)
+        st["depth"] += 1
+        try:
+            yield
+        finally:
+            st["depth"] -= 1
+            if st["depth"] == 0:
+                fcntl.flock(st["fd"], fcntl.LOCK_UN)
+                st["fd"].close()
+                st["fd"] = None
 
 
 def locked(fn):
